@@ -41,10 +41,10 @@ import (
 )
 
 const (
-	evMagic  uint32 = 0x0c170e01
-	svcMagic uint32 = 0x0c175c01
-	schema          = "CREATE TABLE IF NOT EXISTS t (seq INTEGER PRIMARY KEY AUTOINCREMENT, id INTEGER UNIQUE);"
-	diskScratch     = "/tmp/C17" // kill runs: real files
+	evMagic     uint32 = 0x0c170e01
+	svcMagic    uint32 = 0x0c175c01
+	schema             = "CREATE TABLE IF NOT EXISTS t (seq INTEGER PRIMARY KEY AUTOINCREMENT, id INTEGER UNIQUE);"
+	diskScratch        = "/tmp/C17" // kill runs: real files
 )
 
 // step-level runs take in-process crash images, so nothing depends on fsync: use tmpfs when there is one (an fsync on the
@@ -139,21 +139,21 @@ type plan struct {
 }
 
 type mockBinlog struct {
-	mu       sync.Mutex
-	entries  []entry
-	length   int64
-	durable  int64 // highest offset ever announced through Commit (the fsynced prefix)
-	eng      binlog.Engine
-	replica  bool
-	failNext bool
-	extra    int
-	lastASAP bool
-	appends  int
-	plan     plan
-	rec      []string // protocol lines recorded while Run replays
-	start    int64
-	stop     chan struct{}
-	stopOnce sync.Once
+	mu           sync.Mutex
+	entries      []entry
+	length       int64
+	durable      int64 // highest offset ever announced through Commit (the fsynced prefix)
+	eng          binlog.Engine
+	replica      bool
+	failNext     bool
+	extra        int
+	lastASAP     bool
+	appends      int
+	plan         plan
+	rec          []string // protocol lines recorded while Run replays
+	start        int64
+	stop         chan struct{}
+	stopOnce     sync.Once
 	commitOnStop bool
 }
 
@@ -307,10 +307,10 @@ func (m *mockBinlog) Append(onOffset int64, payload []byte) (int64, error) {
 func (m *mockBinlog) AppendASAP(onOffset int64, payload []byte) (int64, error) {
 	return m.doAppend(onOffset, payload, true)
 }
-func (m *mockBinlog) AddStats(stats map[string]string)         {}
-func (m *mockBinlog) EngineStatus(status binlog.EngineStatus)  {}
-func (m *mockBinlog) GetStartCmd() (binlog.StartCmd, bool)     { return binlog.StartCmd{}, false }
-func (m *mockBinlog) RequestReindex(diff bool, fast bool)      {}
+func (m *mockBinlog) AddStats(stats map[string]string)        {}
+func (m *mockBinlog) EngineStatus(status binlog.EngineStatus) {}
+func (m *mockBinlog) GetStartCmd() (binlog.StartCmd, bool)    { return binlog.StartCmd{}, false }
+func (m *mockBinlog) RequestReindex(diff bool, fast bool)     {}
 func (m *mockBinlog) RequestShutdown() {
 	m.stopOnce.Do(func() {
 		if m.commitOnStop && !m.replica && m.eng != nil { // fsbinlog writer: final fsync + Commit when it stops
@@ -551,10 +551,10 @@ func (s *stepper) callback(id, ln int, k doKind) func(sqlite.Conn, []byte) ([]by
 }
 
 type snap struct {
-	cr, tr   []int
-	co, to   int64
-	nent     int
-	dbo      int64
+	cr, tr []int
+	co, to int64
+	nent   int
+	dbo    int64
 }
 
 func (s *stepper) snapshot() (sn snap) {
@@ -1291,12 +1291,12 @@ func (r *recEngine) Skip(n int64) (int64, error) {
 	r.entries = append(r.entries, entry{raw: make([]byte, n), end: r.pos})
 	return r.pos, nil
 }
-func (r *recEngine) Commit(int64, []byte, int64) error       { return nil }
-func (r *recEngine) Revert(int64) (bool, error)              { return false, nil }
-func (r *recEngine) ChangeRole(binlog.ChangeRoleInfo) error  { return nil }
-func (r *recEngine) StartReindex(binlog.ReindexOperator)     {}
-func (r *recEngine) Split(int64, string) bool                { return false }
-func (r *recEngine) Shutdown()                               {}
+func (r *recEngine) Commit(int64, []byte, int64) error      { return nil }
+func (r *recEngine) Revert(int64) (bool, error)             { return false, nil }
+func (r *recEngine) ChangeRole(binlog.ChangeRoleInfo) error { return nil }
+func (r *recEngine) StartReindex(binlog.ReindexOperator)    {}
+func (r *recEngine) Split(int64, string) bool               { return false }
+func (r *recEngine) Shutdown()                              {}
 
 func parseBinlog(dir string) ([]entry, int64, error) {
 	bl, err := fsbinlog.NewFsBinlog(nil, fsOptions(dir, true))
